@@ -1,4 +1,5 @@
 //! C11 — RFC 2822: output round-trips, obsolete forms are read as specified. Shapes S (every date 0..=9999) + P (grammar-option product).
+use chrono::format::{Fixed, Item, Parsed};
 use chrono::{DateTime, FixedOffset, TimeZone};
 use chrono_mc::core::*;
 use chrono_mc::lattice::*;
@@ -24,6 +25,15 @@ const SEC60: usize = 12;
 
 const WDN: [&str; 7] = ["Mon", "Tue", "Wed", "Thu", "Fri", "Sat", "Sun"];
 const MON: [&str; 12] = ["Jan", "Feb", "Mar", "Apr", "May", "Jun", "Jul", "Aug", "Sep", "Oct", "Nov", "Dec"];
+
+const RFC2822_ITEM: [Item<'static>; 1] = [Item::Fixed(Fixed::RFC2822)];
+
+/// the same reader reached through the `Fixed::RFC2822` item (the route `%c`-like composite formats take)
+fn parse_via_item(s: &str) -> Result<DateTime<FixedOffset>, chrono::ParseError> {
+    let mut p = Parsed::new();
+    chrono::format::parse(&mut p, s, RFC2822_ITEM.iter())?;
+    p.to_datetime()
+}
 
 fn case_variant(s: &str, k: usize) -> String {
     match k {
@@ -64,6 +74,17 @@ fn output_one(acc: &mut Acc, z: i64, s: u32, f: u32, off: i32, buf: &mut String)
     if txt != *buf && !alt_ok {
         acc.violation("to_rfc2822:text", format!("{:?}.to_rfc2822()", dt), buf.clone(), txt.clone());
         return;
+    }
+    // the item route writes and reads the same text
+    acc.transitions += 2;
+    buf.clear();
+    let w = guard(|| write!(buf, "{}", dt.format_with_items(RFC2822_ITEM.iter())));
+    if !matches!(w, Ok(Ok(()))) || *buf != txt {
+        acc.violation("Fixed::RFC2822 item:text", format!("{:?}.format_with_items([Fixed::RFC2822])", dt), txt.clone(), format!("{:?} {:?}", buf, w));
+    }
+    match guard(|| parse_via_item(&txt)) {
+        Ok(Ok(p)) if p.offset().local_minus_utc() == off && ndt_parts(p.naive_local()) == (z, s, if leap { 1_000_000_000 } else { 0 }) => {}
+        other => acc.violation("Fixed::RFC2822 item:reparse", format!("format::parse(.., {:?}, [Fixed::RFC2822]) then to_datetime()", txt), format!("wall clock {:?} (to whole seconds, leap kept) at offset {}", wall, off), format!("{:?}", other)),
     }
     match DateTime::parse_from_rfc2822(&txt) {
         Ok(p) if p.offset().local_minus_utc() == off && ndt_parts(p.naive_local()) == (z, s, if leap { 1_000_000_000 } else { 0 }) => {
@@ -199,6 +220,11 @@ fn input_product(acc: &mut Acc, z: i64, s: u32, zs: &[Zone], full_ws: bool) {
                                             acc.violation("parse_from_rfc2822", format!("DateTime::parse_from_rfc2822({:?})", buf), format!("Ok(wall clock day {} sec {} frac {} at offset {})", z, es, ef, zn.off), format!("{:?}", other));
                                             continue;
                                         }
+                                    }
+                                    acc.transitions += 1;
+                                    match guard(|| parse_via_item(&buf)) {
+                                        Ok(Ok(p)) if p.offset().local_minus_utc() == zn.off && ndt_parts(p.naive_local()) == (z, es, ef) => {}
+                                        other => acc.violation("Fixed::RFC2822 item:parse", format!("format::parse(.., {:?}, [Fixed::RFC2822]) then to_datetime()", buf), format!("Ok(wall clock day {} sec {} frac {} at offset {})", z, es, ef, zn.off), format!("{:?}", other)),
                                     }
                                     if *ycls != usize::MAX {
                                         acc.hit_nt(*ycls);
